@@ -169,6 +169,9 @@ func genDQ(r *lib.Run, rng *lib.Rand) {
 		head, tail := ls[:cut], ls[cut:]
 		hops := rng.Pick(0, 0, 0, 1, 2, 3, 9, 10, 11)
 		area := &asm{}
+		if rng.Chance(15) { // large offsets: pointer targets beyond 255 / 1023 / 4095
+			area.Raw(rng.Bytes(rng.Pick(250, 600, 1100, 2000, 4200))...)
+		}
 		// tail segment + chain of pointer cells: T0 -> T1 -> ... -> tail
 		area.Mark("T0")
 		for h := 0; h < hops; h++ {
